@@ -179,7 +179,9 @@ def extra_oracles(rng, tier):
     # values written differently never verify each other's tokens, in whatever order they were used before
     from poorwsgi.session import get_token, check_token
     import poorwsgi.session as S
-    odd = [1, True, 1.0, 0, False, 0.0, None, "1", "True", "None", b"k", bytearray(b"k"), 10, "10"]
+    odd = [1, True, 1.0, 0, False, 0.0, None, "1", "True", "None", b"k", bytearray(b"k"), 10, "10",
+           # a bytes secret and its text twin; random key bytes that are not UTF-8 and differ in one of them
+           "k", "b'k'", b"\xff\x01key", b"\xfe\x01key", "\ufffd\x01key"]
     old_time = S.time
     S.time = lambda: 1000.0
     try:
